@@ -24,8 +24,10 @@ import (
 	"verif/harness/cmapref"
 	"verif/harness/ev"
 	"verif/harness/hostile"
+	"verif/harness/inputs"
 	"verif/harness/t1gen"
 	"verif/harness/t1ref"
+	"verif/harness/targets"
 )
 
 const repeats = 12
@@ -150,6 +152,9 @@ type cmapCase struct {
 	Data []byte `json:"data"`
 	// Between: other inputs read between the repetitions
 	Between []string `json:"between,omitempty"`
+	// Target: "" = type1.Read compared as fonts; otherwise the name of a
+	// reading entry point (targets package) whose result digest is compared
+	Target string `json:"target,omitempty"`
 }
 
 // CMap files that define into whatever dictionary is current (no `12 dict
@@ -624,6 +629,9 @@ type rereadCase struct {
 	// Between: other inputs read between the repetitions (a result must not
 	// depend on what the process read before)
 	Between []string `json:"between,omitempty"`
+	// Target: "" = type1.Read compared as fonts; otherwise the name of a
+	// reading entry point (targets package) whose result digest is compared
+	Target string `json:"target,omitempty"`
 }
 
 // perturbing inputs: programs that store into objects every interpreter
@@ -641,6 +649,23 @@ var perturbations = []string{
 }
 
 func checkReread(c *rereadCase) string {
+	if c.Target != "" {
+		tg, ok := targets.ByName(c.Target)
+		if !ok {
+			return "unknown target " + c.Target
+		}
+		d1, err1 := tg.Run(bytes.NewReader(c.Data))
+		for r := 1; r < repeats; r++ {
+			d2, err2 := tg.Run(bytes.NewReader(c.Data))
+			if (err1 == nil) != (err2 == nil) {
+				return fmt.Sprintf("%s: reading the same bytes gives err=%v, then err=%v", c.Target, err1, err2)
+			}
+			if d1 != d2 {
+				return fmt.Sprintf("%s: reading the same bytes gives a different result on invocation %d\nfirst: %s\nthen:  %s", c.Target, r+1, clip(d1), clip(d2))
+			}
+		}
+		return ""
+	}
 	f1, err1 := type1.Read(bytes.NewReader(c.Data))
 	for r := 1; r < repeats; r++ {
 		if len(c.Between) > 0 {
@@ -700,12 +725,35 @@ func nestedSeacFont(t *rapid.T) []byte {
 func TestP3Reread(t *testing.T) {
 	rec := ev.New("C17", "reread")
 	defer rec.Finish(t)
-	rec.Rule(fmt.Sprintf("fonts laid out by the independent writer (model fonts of the C06 generator with subrs/flex/several accented composites, and fonts whose composites refer to other composites in chains of 2-6 defined in a drawn order - not conforming, but any accepted input must read deterministically; files that define two or three fonts under different names; and structure-aware damaged fonts of the C01 generators - random charstrings, composites without width or with damaged components, glyphs holding half of a flex / othersubr / hint-replacement sequence next to glyphs holding the whole) are read %d times from the same bytes, in half of the cases with other inputs read in between (programs that store into StandardEncoding, FontDirectory, internaldict, errordict, userdict, systemdict, the CIDInit procedure set or the resource directories, or damaged fonts whose reading fails half-way); all results must be deep-equal. Non-trivial: font has >= 2 composites; distinct by bytes.", repeats))
+	rec.Rule(fmt.Sprintf("fonts laid out by the independent writer (model fonts of the C06 generator with subrs/flex/several accented composites, and fonts whose composites refer to other composites in chains of 2-6 defined in a drawn order - not conforming, but any accepted input must read deterministically; files that define two or three fonts under different names; and structure-aware damaged fonts of the C01 generators - random charstrings, composites without width or with damaged components, glyphs holding half of a flex / othersubr / hint-replacement sequence next to glyphs holding the whole; damaged CMap, AFM and PFB files and generated programs through their own entry points) are read %d times from the same bytes, in half of the cases with other inputs read in between (programs that store into StandardEncoding, FontDirectory, internaldict, errordict, userdict, systemdict, the CIDInit procedure set or the resource directories, or damaged fonts whose reading fails half-way); all results must be deep-equal. Non-trivial: font has >= 2 composites; distinct by bytes.", repeats))
 	ev.SetupRapid(3000, 64000)
 	rapid.Check(t, func(t *rapid.T) {
 		var data []byte
 		multi := false
-		if k := rapid.IntRange(0, 6).Draw(t, "rereadkind"); k >= 5 {
+		if k := rapid.IntRange(0, 8).Draw(t, "rereadkind"); k >= 7 {
+			// damaged CMap, AFM and PFB files and generated programs through
+			// their own entry points: the outcome (rejected, or the result
+			// digest) must be the same every time
+			c := &rereadCase{}
+			switch rapid.IntRange(0, 3).Draw(t, "othertarget") {
+			case 0:
+				c.Target, c.Data = targets.CMap.Name, hostile.CMap(t)
+			case 1:
+				c.Target, c.Data = targets.AFM.Name, hostile.AFM(t)
+			case 2:
+				c.Target, c.Data = targets.PFB.Name, hostile.PFB(t)
+			default:
+				c.Target = targets.Interp.Name
+				c.Data, _ = inputs.ProgramText(t)
+			}
+			rec.Class("other-entry-point:" + c.Target)
+			rec.Eval(1)
+			rec.NonTrivialHash(ev.Hash(c.Target + string(c.Data)))
+			if msg := ev.Safe(func() string { return checkReread(c) }); msg != "" {
+				rec.Fail(t, msg, map[string]any{"reread": c})
+			}
+			return
+		} else if k >= 5 {
 			// structure-aware damaged fonts (the C01 generators): accepted or
 			// rejected, the outcome must be the same every time - glyphs with
 			// half a flex sequence or a stray pop next to glyphs with the
